@@ -13,7 +13,7 @@
 //     single retrievals in the requested order (and raise when one of them raises); [] stands for "all positions"
 //     (see EMPTY_LIST_MEANS_ALL);
 //   * features: Tagged (cut like the reference, on a second array with other extents), Untagged (whole array),
-//     Indexed with first extent N and N-1 (slice i along axis 0; raises when the feature has fewer slices).
+//     Indexed with first extent N+2 and N-1 (slice i along axis 0; raises when the feature has fewer slices).
 // File layout: one scratch file per positions-array layout, one block per table size N holding its own copy of the
 // arrays, the multi-tag and its positions / extents / indexed-feature arrays (keeps every HDF5 group small, see main).
 // Signatures: dagrid.hpp (make_sig) for single retrievals; check_list below for index lists.
@@ -59,7 +59,8 @@ static MT make_mt(Shared &S, size_t N, size_t cols, const std::string &suffix) {
     m.ext = S.block.createDataArray("ext" + suffix, "t", DataType::Double, shape);
     m.tag = S.block.createMultiTag("mt" + suffix, "t", m.pos);
     m.tag.addReference(S.ref.array);
-    std::vector<AxisSpec> a = {{SET, 0, N}, {SAMPLED, 0, 2}};
+    // the first indexed feature has MORE slices than there are positions: an index >= N must still raise
+    std::vector<AxisSpec> a = {{SET, 0, N + 2}, {SAMPLED, 0, 2}};
     m.fiN = build_array(S.block, "fiN" + suffix, a, 7000.0, P);
     m.has_fiN1 = N > 1;
     if (m.has_fiN1) { a[0].n = N - 1; m.fiN1 = build_array(S.block, "fiM" + suffix, a, 8000.0, P); }
@@ -235,7 +236,7 @@ static void run_table(Shared &S, MT &m, const std::vector<Row> &rows, bool has_e
             const Built &fa = which == 0 ? S.fu : which == 1 ? m.fiN : m.fiN1;
             const Feature &feat = which == 0 ? m.feat_u : which == 1 ? m.feat_iN : m.feat_iN1;
             size_t fidx = which == 0 ? m.idx_u : which == 1 ? m.idx_iN : m.idx_iN1;
-            std::string lt = which == 0 ? "untagged" : which == 1 ? "indexed(N slices)" : "indexed(N-1 slices)";
+            std::string lt = which == 0 ? "untagged" : which == 1 ? "indexed(N+2 slices)" : "indexed(N-1 slices)";
             Expect w = !inside ? beyond_positions() : which == 0 ? whole_array(fa) : slice_of(fa, i);
             InputInfo iw; iw.arr = &fa; iw.plain = true; iw.family = "featureData(MultiTag), " + std::string(which == 0 ? "untagged" : "indexed") + " feature";
             iw.plain_class = lt + " feature; " + (!inside ? "position index beyond the number of positions" : w.throws ? "position index beyond the slices of the feature" : "position index inside");
